@@ -15,6 +15,7 @@ every binding to the file:line of the statement (or block member) that last set 
 import os
 import re
 import shutil
+import sys
 import tempfile
 import tokenize
 import warnings
@@ -157,8 +158,18 @@ class Tree:
     self.config = config
     self.tmp = tmp
     self.files = config['files']
+    # names[i]: where the file is (what errors and provenance show); refs[i]: how it is spelled in
+    # include statements and API calls. 'pkgrel': the files live in a package on sys.path and are
+    # spelled package-relative, so only the Python-path reader (gin.resource_reader) finds them.
+    base = tmp
+    if config.get('pkgrel'):
+      base = os.path.join(tmp, 'c16pkg')
+      os.makedirs(base, exist_ok=True)
+      open(os.path.join(base, '__init__.py'), 'w').close()
     self.names = [None if (i == 0 and config['root_as'] == 'string')
-                  else os.path.join(tmp, f'f{i}.gin') for i in range(len(self.files))]
+                  else os.path.join(base, f'f{i}.gin') for i in range(len(self.files))]
+    self.refs = [n and (f'c16pkg/f{i}.gin' if config.get('pkgrel') else n)
+                 for i, n in enumerate(self.names)]
     self.parent = {}
     for i, f in enumerate(self.files):
       for k, s in enumerate(f['stmts']):
@@ -181,7 +192,7 @@ class Tree:
       if tape.pick(3) == 1:
         lines.append(tape.choose(['', '# comment', '   ']))
       if s[0] == 'include':
-        s = ['include', os.path.join(self.tmp, f'f{s[1]}.gin')]
+        s = ['include', self.refs[s[1]]]
       if fault is not None and fault[0] == k:
         stmt_lines, offsets = list(fault[1]), None
       else:
@@ -226,7 +237,7 @@ class Tree:
 def parse_root(tree, texts):
   if tree.names[0] is None:
     return gin.parse_config(texts[0])
-  return gin.parse_config_file(tree.names[0])
+  return gin.parse_config_file(tree.refs[0])
 
 
 # ------------------------------------------------------------------------------ observation
@@ -334,9 +345,14 @@ def check_case(case):
   inj = case.get('fault')
   labels = set()
   tmp = tempfile.mkdtemp(prefix='c16-')
+  if config.get('pkgrel'):
+    sys.path.insert(0, tmp)
+    labels.add('files-found-through-the-python-path')
   try:
     return _check(config, inj, labels, tmp)
   finally:
+    if tmp in sys.path:
+      sys.path.remove(tmp)
     shutil.rmtree(tmp, ignore_errors=True)
 
 
@@ -621,5 +637,6 @@ def strategy(draw):
                   'prior%d' % j])
   return {'config': {'files': files, 'root_as': draw(st.sampled_from(['string', 'file'])),
                      'prior': prior, 'outer_scope': draw(st.sampled_from(['', '', 'outer', 'o/p'])),
-                     'locked': locked, 'tape': draw(S.tapes(20))},
+                     'locked': locked, 'tape': draw(S.tapes(20)),
+                     'pkgrel': draw(st.integers(0, 3)) == 0},
           'variant': draw(st.integers(0, 7))}
